@@ -27,7 +27,9 @@ def run(ctx):
     stats = {}
     U.both_ties(ctx, stats)
 
-    if not ctx.coq_property():
+    ok_prop = ctx.coq_property()
+    ctx.log("coq property built: %s" % ok_prop)
+    if not ok_prop:
         if not any(f.kind == "violation" for f in ctx.findings):
             ctx.proof_broken("Properties/C09.v (%s)" % getattr(ctx, "failed_at", "?"), getattr(ctx, "coq_log", ""))
         else:
